@@ -85,11 +85,10 @@ def build(E):
     from contracts import client_proto, client_session
     own = list(spec.targets)
     spec.targets = []
-    client_proto.add_targets(E, spec, "C19", classes=(client_proto.GP,))
+    client_proto.add_targets(E, spec, "C19")
     spec.targets = [t for t in spec.targets if t[0].endswith(".connection_made")]
     spec.keep = None
     client_session.add_targets(E, spec, "C19")
-    spec.targets = [t for t in spec.targets if not t[0].endswith(".upload")]
     skeep = spec.keep
     spec.targets = own + spec.targets
     CLQ = "nauyaca.client.session:GeminiClient"
@@ -102,6 +101,18 @@ def build(E):
         return True
     spec.keep = keep
     return spec
+
+
+def core_sub(pid, only=None):
+    """sub-specification (own engine): parse_url / normalize_url / validate_url under their contracts, for another property's run"""
+    def build_sub(E2):
+        s2 = Spec(pid)
+        s2.targets = []
+        add_targets(E2, s2)
+        if only is not None:
+            s2.keep = lambda name: only in name
+        return s2
+    return build_sub
 
 
 def add_targets(E, spec):
